@@ -30,6 +30,7 @@ PATTERNS = {
     'CH4': (['C', 'H', 'H', 'H', 'H'], [(0, 0, 0), (.63, .63, .63), (-.63, -.63, .63), (-.63, .63, -.63), (.63, -.63, -.63)]),
     'CHFClBr': (['C', 'H', 'F', 'Cl', 'Br'], [(0, 0, 0), (.63, .63, .63), (-.8, -.8, .8), (-1.0, 1.0, -1.0), (1.1, -1.1, -1.1)]),
     'CHHB': (['C', 'H', 'H', 'B'], [(0, 0, 0), (1, 0, 0), (0, 2, 0), (0, 0, 1)]),
+    'CNHH': (['C', 'N', 'H', 'H'], [(0, 0, 0), (1.3, 0, 0), (-0.5, 0.9, 0.3), (-0.5, -0.9, 0.3)]),      # mirror plane but no rotation symmetry: the two H can be swapped by a reflection only
     'frag7': (['C', 'C', 'O', 'O', 'H', 'N', 'F'], [(0, 0, 0), (1.4, 0.2, 0), (2.0, 1.3, 0.3), (2.1, -0.9, -0.4), (-0.6, 0.9, 0.2), (-0.7, -1.0, 0.5), (0.1, 0.2, -1.4)]),
 }
 PATTERN_NAMES = list(PATTERNS)
